@@ -30,6 +30,9 @@ pub fn c02_base_records(c: &Corpus) -> Vec<[u8; 32]> {
     for b in c.valid.iter().take(12) {
         v.push(*b);
     }
+    for b in &c.boundary_valid {
+        v.push(*b);
+    }
     for b in c.valid.iter().skip(1).take(4) {
         let s = Fld::int_le(b);
         for x in [&s + q, f.neg(&s), &s + 1u32, &s + q + q] {
@@ -341,6 +344,24 @@ pub fn c03_cases(c: &Corpus, quick: bool) -> Vec<IoRun> {
                         ..Default::default()
                     });
                 }
+            }
+        }
+        // uncompressed mode of the three serialisers
+        for as_ in [ElemAs::Element, ElemAs::Affine, ElemAs::Encoding] {
+            for chunk in [0usize, 1] {
+                out.push(IoRun {
+                    pool: prog.clone(),
+                    records: vec![one_record(
+                        Payload::ElemUncompressed { idx: last, as_ },
+                        IoPlan {
+                            chunks: if chunk == 0 { vec![] } else { vec![chunk] },
+                            events: vec![],
+                        },
+                        IoPlan::default(),
+                        RecvMode::Compressed,
+                    )],
+                    ..Default::default()
+                });
             }
         }
         // containers: the element inside Vec / Option / tuple under a one-byte-per-call sink
